@@ -1050,17 +1050,19 @@ class Container:
             return destination._transfer_slice(source, quantity)
         raise TypeError("Invalid source type.")
 
-    def get_concentration(self, solute: Substance, units: str = 'M') -> float:
+    def get_concentration(self, solute: Substance, units: str = None) -> float:
         """
         Get the concentration of solute in the current solution.
 
         Args:
             solute: Substance interested in.
-            units: Units to return concentration in, defaults to Molar.
+            units: Units to return concentration in, defaults to concentration_display_unit from config (Molar).
 
         Returns: Concentration
 
         """
+        if units is None:
+            units = config.concentration_display_unit
         if not isinstance(solute, Substance):
             raise TypeError("Solute must be a Substance.")
         if not isinstance(units, str):
